@@ -4,17 +4,22 @@
   Two goroutines call `rs.conn.Write` on the same `net.Conn` and no lock is
   taken around those calls (transport/rawsocketpeer.go):
 
-  * the sender goroutine (`sendHandler`): per message `Write(header)` then
-    `Write(b)`                                     — `Gen.senderWrites`;
-  * the reader goroutine (`recvHandler`), answering a PING: `Write(header[:])`
-    then `io.CopyN(rs.conn, rs.conn, length)`, i.e. one or more `Write` calls
-    carrying the payload in whatever chunks the copy uses — `Gen.pongWrites`.
+  * the sender goroutine (`sendHandler`), per message — `Gen.senderWriteParts`:
+    today ONE call `Write(frame)` with frame = header ++ b (before commit
+    "every rawsocket frame is written with one Write call": `Write(header)`
+    then `Write(b)`);
+  * the reader goroutine (`recvHandler`), answering a PING — `Gen.pongWriteParts`:
+    today ONE call `Write(pong)` after the payload has been read completely
+    (before: `Write(header[:])` then `io.CopyN(rs.conn, rs.conn, length)`).
 
   What `net.Conn` guarantees ("Multiple goroutines may invoke methods on a Conn
   simultaneously"; both `net.TCPConn` and `net.Pipe` serialise whole `Write`
   calls under a write lock) is that each call is atomic and calls are totally
   ordered.  So the connection is a LOG of write calls, and every execution is
   a `Merge` of the two goroutines' call sequences.
+
+  Also here: what the sender goroutine does once its context is cancelled
+  (`Close`, or the reader seeing EOF): `afterCancel`.
 
   Core-only.
 -/
@@ -46,28 +51,64 @@ def wire (calls : List WriteCall) : List UInt8 := (calls.map (·.bytes)).flatten
 def senderCalls (sendLimit : Int) (payloads : List (List UInt8)) : List WriteCall :=
   ((payloads.filterMap (frameWrites sendLimit)).flatten).map (fun b => ⟨.sender, b⟩)
 
-/-- One PING being answered: the three length bytes of its header and the chunks in which
-    `io.CopyN` happens to write the payload back. -/
+/-- One PING being answered: the three length bytes of its header and its payload. -/
 structure Pong where
   l0 : UInt8
   l1 : UInt8
   l2 : UInt8
-  chunks : List (List UInt8)
+  payload : List UInt8
   deriving Repr
 
-/-- The reader goroutine's calls for one PING. -/
+/-- The PONG frame: type 2, the same length bytes, the same payload. -/
+def pongFrame (p : Pong) : List UInt8 := [Gen.pongType, p.l0, p.l1, p.l2] ++ p.payload
+
+/-- The reader goroutine's calls for one PING (`Gen.pongWriteParts`). -/
 def pongCalls (p : Pong) : List WriteCall :=
-  ⟨.reader, [Gen.pongType, p.l0, p.l1, p.l2]⟩ :: p.chunks.map (fun c => ⟨.reader, c⟩)
+  Gen.pongWriteParts.map (fun parts =>
+    ⟨.reader, parts.flatMap (writePart [Gen.pongType, p.l0, p.l1, p.l2] p.payload)⟩)
 
 /-- The reader goroutine's calls for the PINGs it answers, in order. -/
 def readerCalls (ps : List Pong) : List WriteCall := ps.flatMap pongCalls
 
-/-- The PONG frame as a unit (what a lock around the reader's writes would make atomic). -/
-def pongFrame (p : Pong) : List UInt8 := [Gen.pongType, p.l0, p.l1, p.l2] ++ p.chunks.flatten
-
 /-- A PONG whose header announces exactly the bytes that follow, within the peer's limit. -/
 def Pong.wellFormed (p : Pong) (recvLimit : Int) : Prop :=
-  Gen.bytesToInt [p.l0, p.l1, p.l2] = Int.ofNat p.chunks.flatten.length ∧
-    (p.chunks.flatten.length : Int) ≤ recvLimit
+  Gen.bytesToInt [p.l0, p.l1, p.l2] = Int.ofNat p.payload.length ∧
+    (p.payload.length : Int) ≤ recvLimit
+
+/-! ## the two-call shape the code had before (kept to show what the one-call shape buys) -/
+
+/-- `Write(header)` then `Write(b)`. -/
+def senderCallsSplit (sendLimit : Int) (payloads : List (List UInt8)) : List WriteCall :=
+  (payloads.filter (fits sendLimit)).flatMap (fun p => [⟨.sender, frameHeader p.length⟩, ⟨.sender, p⟩])
+
+/-- `Write(header[:])` then the payload copied back. -/
+def pongCallsSplit (p : Pong) : List WriteCall :=
+  [⟨.reader, [Gen.pongType, p.l0, p.l1, p.l2]⟩, ⟨.reader, p.payload⟩]
+
+/-! ## the sender goroutine after its context has been cancelled -/
+
+/-- The write calls of the sender goroutine from the moment `ctxSender` is cancelled, with
+    `queue` sitting in `rs.wr` (nothing is added any more: `Close` cancels, waits for the sender
+    to exit, and only then closes the channel).
+
+    While the goroutine is in its normal `select`, both cases are ready — a queued message and
+    `<-senderDone` — and Go picks either; `oracle` is that sequence of picks (true = the message).
+    Once `<-senderDone` is picked: with `drains` (the source today, `Gen.senderDrainsOnDone`)
+    the goroutine takes every message still queued, in order, and exits when `rs.wr` is empty;
+    without it the goroutine returns at once and `Close` discards the rest.
+    `w m` are the calls for one message (none if it does not serialise or does not fit);
+    writes are taken to succeed (a failed write is logged and the loop goes on). -/
+def afterCancel {M : Type} (drains : Bool) (w : M → List WriteCall) : List Bool → List M → List WriteCall
+  | _, [] => []
+  | [], m :: q => if drains then (m :: q).flatMap w else []
+  | o :: os, m :: q =>
+    if o then w m ++ afterCancel drains w os q
+    else if drains then (m :: q).flatMap w else []
+
+/-- The sender's calls for one message handed to `Send()`. -/
+def messageCalls {M : Type} (ser : M → Option (List UInt8)) (sendLimit : Int) (m : M) : List WriteCall :=
+  match ser m with
+  | some p => senderCalls sendLimit [p]
+  | none => []
 
 end Nexus.Frame
